@@ -9,7 +9,7 @@ ASSUMPTIONS = ["rounding is judged per run, not proved", "real thread interleavi
 
 
 def run(ctx):
-    n_cases, nmax = (800, 48) if ctx.quick() else (20000, 200)
+    n_cases, nmax = (800, 48) if ctx.quick() else (5000, 120)
     recs = S.sweep(ctx, n_cases, nmax, precs="dszc", drivers=("gssv",))
     bad = S.judge(ctx, recs, ["wfL", "wfU", "permr", "permc", "resid"], "gssv-residual")
     nons = 0
@@ -24,7 +24,7 @@ def run(ctx):
             ctx.violation("threads-left", "thread count %s -> %s" % res["threads"], S.replay_blob(r)); bad += 1
     S.coverage(ctx, recs)
     # the returned X against the exact solve of the model (Model/LU.lean solveN, theorem solve_correct) on well-conditioned inputs
-    dom = S.sweep(ctx, 300 if ctx.quick() else 6000, 24, precs="ds", drivers=("gssv",), force={"dominant": True, "stype": "NC", "nrhs": 2}, seed_offset=111)
+    dom = S.sweep(ctx, 300 if ctx.quick() else 3000, 24, precs="ds", drivers=("gssv",), force={"dominant": True, "stype": "NC", "nrhs": 2}, seed_offset=111)
     st, dis = FC.compare(ctx, dom, nmax=24, with_x=True)
     ctx.coverage["exact_solve_comparison"] = st
     for d in dis[:10]:
